@@ -507,17 +507,12 @@ theorem elabField_meaning' (O : Oracles) (future : Bool) (fs : FieldSp)
           · exact hok
         simp [ht, tryDefault_of_ok hok', annField, isFieldObj, getItem, finishField, eqResult_scalar _ _ hsc]
     | eqF p n =>
-      simp only [Bool.and_eq_true, Bool.not_eq_true'] at hd
-      have hon := hd.2
-      simp only [onceSp, hev] at hon
       simp only [evTop, hev, bindE_ok, annField, fieldMeaning, DefaultSp.value, effOptional]
       have htag : ∀ opt, eqResult (denote ty) opt factoryTag = .field (denote ty) false (some factoryTag) :=
         fun _ => rfl
       by_cases hf : isFieldObj o = true
       · simp [hf, hgi, finishField, htag]
-      · have hf' : isFieldObj o = false := by simpa using hf
-        have hsel : (gtliGivesClass ptm o && truthy p) = false := by simpa [hf'] using hon
-        simp [hf, g.gt, afterGtli, finishField, htag, hsel]
+      · simp [hf, g.gt, afterGtli, finishField, htag]
     | kwF p n =>
       have hkw : kwAllowed ty = true := hd
       have ho := g.ki hkw
